@@ -30,7 +30,14 @@ THEOREMS = ["Gozod.C11.c11_equiv_partial", "Gozod.C11.conv", "Gozod.C11.equivJ",
             "Gozod.C11.reads_convertTuple", "Gozod.C11.convObject_frame", "Gozod.C11.reads_convertObject", "Gozod.C11.convByType_frame",
             "Gozod.C11.reads_convertByType", "Gozod.C11.assemble_frame", "Gozod.C11.reads_convert", "Gozod.C11.reads_dispatch_members",
             "Gozod.C11.reads_attachMeta", "Gozod.C11.converter_reads_documented", "Gozod.C11.documented_are_read",
-            "Gozod.C11.strict_rejects_iff_read", "Gozod.C11.strict_reads_in_table", "Gozod.C11.converted_not_rejected"]
+            "Gozod.C11.strict_rejects_iff_read", "Gozod.C11.strict_reads_in_table", "Gozod.C11.converted_not_rejected",
+            # round 4b: every theorem above holds for an arbitrary set Fx of applied pending patches; per patch a witness on the
+            # tree without it and a `fixed_` theorem on the tree with it
+            "Gozod.C11.fixed_nullable_union", "Gozod.C11.fixed_nullable_intersection", "Gozod.C11.fixed_format_siblings",
+            "Gozod.C11.witness_tuple_tail_rejected", "Gozod.C11.fixed_tuple_open", "Gozod.C11.fixed_required_additional",
+            "Gozod.C11.fixed_open_object", "Gozod.C11.witness_integer_bound_truncated", "Gozod.C11.fixed_integer_bounds",
+            "Gozod.C11.c11_enum_fixed", "Gozod.C11.parseEnumFx_legacy", "Gozod.C11.sList_noNil", "Gozod.C11.sList_countNil",
+            "Gozod.C11.lits_noNil", "Gozod.C11.tupRest_closed"]
 GEN = os.path.join(C.LEAN, "Gozod", "Gen", "KeywordTable.lean")
 
 def extract_table(res):
